@@ -309,7 +309,7 @@ def _enumerate_routes(tier, shard, nshards):
             continue
 
         @seed(vs * 1000 + i)
-        @settings(max_examples=3 if tier == 'quick' else 10, database=None, deadline=None,
+        @settings(max_examples=3 if tier == 'quick' else 20, database=None, deadline=None,
                   phases=[Phase.generate], suppress_health_check=list(HealthCheck))
         @given(_cases(route=route))
         def collect(case):
@@ -333,5 +333,5 @@ SUBS = [
         fingerprint=_fp, sample=_sample,
         require_tags=tuple('route:' + r for r in ROUTES)),
     Sub('routes-random', oracle, _classify, strategy=_strategy,
-        budget={'quick': 30, 'thorough': 150}, fingerprint=_fp, sample=_sample),
+        budget={'quick': 30, 'thorough': 400}, fingerprint=_fp, sample=_sample),
 ]
